@@ -1,6 +1,7 @@
 """C14 -- multipart bodies: parts are exact and independent of chunking.
-Theorems: coq/Props/Properties_C14.v (the parser model never faults; chunking independence of parts and
-flags under the executable premises; exactness on the encoder image; refutations = known findings).
+Theorems: coq/Props/Properties_C14.v (C14_never_faults; C14_byte_refinement_partial / C14_chunking_reference:
+chunking independence of parts and ALL flags under the extracted premise mp_premb; five refutations = the known
+findings K1-K4; exactness on the encoder image is an Example + oracle only).
 Tie: S-mpart correspondence between the extracted model (coq/Model/MMultipart.v) and htp_multipart.c /
 htp_content_handlers.c built from /repo's working tree under ASan+UBSan, every chunk in an exact-size
 heap block. Outcome rules: the model is claimed faithful everywhere, so impl != model is a violation on
@@ -330,7 +331,7 @@ REGRESSION = [
 def check(ctx):
     pr = vf.proof_step(ctx, "Properties_C14")
     r = ctx.rng
-    nwf, nmal = (1200, 5000) if ctx.thorough() else (130, 420)
+    nwf, nmal = (1500, 6000) if ctx.thorough() else (300, 1000)
     meta = []                                   # (kind, boundary, body, cuts, truth)
     for (b, body, c) in REGRESSION:
         meta.append(("regression", b, body, c, None))
